@@ -324,9 +324,11 @@ end Frugal
 
 namespace Frugal
 
-theorem isCode_wire (t : Ty) : isCode t.wire = true := by
+theorem isCode_wire' (t : Ty) : isCode t.wire = true := by
   unfold Ty.wire
   cases t.tt <;> rfl
+
+theorem isCode_wire (t : Ty) : codeOK t.wire = true := isCode_codeOK (isCode_wire' t)
 
 theorem scalarTVal_wf (k : Kind) (n : Nat) (hk : k ≠ .string) (hb : k ≠ .binary) (h : hasTy S (.base k) (.sc n) = true) :
     wf (scalarTVal k n) = true := by
